@@ -558,7 +558,13 @@ std::ostream& type_t::print_declaration(std::ostream& os) const
 
     if (range) {
         get(0).print_declaration(os);
-        if (get_range().first.get_value() != INT16_MIN || get_range().second.get_value() != INT16_MAX) {
+        // the bounds are arbitrary integer expressions (e.g. the named constants of the built-in typedefs): only
+        // literal bounds can be compared with the default range
+        const expression_t lower = get_range().first;
+        const expression_t upper = get_range().second;
+        const bool isDefaultRange = lower.get_kind() == CONSTANT && upper.get_kind() == CONSTANT &&
+                                    lower.get_value() == INT16_MIN && upper.get_value() == INT16_MAX;
+        if (!isDefaultRange) {
             os << "[";
             get_range().first.print(os) << ",";
             get_range().second.print(os) << "]";
